@@ -20,6 +20,7 @@
 #include <sys/syscall.h>
 #include <sys/timerfd.h>
 #include <time.h>
+#include <ucontext.h>
 #include <unistd.h>
 
 // ---------------------------------------------------------------------------
@@ -1388,11 +1389,11 @@ void __assert_fail(const char* expr, const char* file, unsigned line, const char
 
 static char altstack[65536];
 static void crash_handler(int sig, siginfo_t* si, void* uc) {
-  (void)uc;
   vs.in_rt++;
+  void* rip = uc ? (void*)((ucontext_t*)uc)->uc_mcontext.gregs[REG_RIP] : 0;
   if (vs_res->status == 0) {
     snprintf(vs_res->kind, sizeof vs_res->kind, "crash:%s", sig == SIGSEGV ? "SIGSEGV" : sig == SIGBUS ? "SIGBUS" : sig == SIGILL ? "SIGILL" : sig == SIGFPE ? "SIGFPE" : "SIGABRT");
-    snprintf(vs_res->detail, sizeof vs_res->detail, "fault address %p, vthread %d, point %llu", si ? si->si_addr : 0, vs.cur ? vs.cur->id : -1,
+    snprintf(vs_res->detail, sizeof vs_res->detail, "fault address %p, pc %p, vthread %d, point %llu", si ? si->si_addr : 0, rip, vs.cur ? vs.cur->id : -1,
              (unsigned long long)vs.points);
     finalize_result(2);
   }
